@@ -355,7 +355,10 @@ def parser_table(ctx, p):
     end_sw = None
     for bb in p.reach([lp["none"][1]]):
         info = p.switch_info(bb)
-        if info and info["kind"] == "variant" and info.get("place", {}).get("local") == mode_local and not p.is_drop_switch(bb):
+        if info and info["kind"] == "variant" and not p.is_drop_switch(bb) and \
+                (info.get("place", {}).get("local") == mode_local or
+                 (info.get("adt", "").endswith("::Mode") and info.get("place") and p.vars_of_place(info["place"]) == {(("var", mode_local),)})):
+            # (also the mode handed to an inlined `mode.at_end_of_file(..)`: a copy of the variable)
             end_sw = info
             break
     if end_sw is not None:
@@ -366,7 +369,8 @@ def parser_table(ctx, p):
                     if s["k"] == "assign" and s["rv"]["k"] == "aggregate" and s["rv"]["kind"]["k"] == "adt":
                         if s["rv"]["kind"]["adt"] == PERR:
                             eff.add(("err", s["rv"]["kind"]["variant"]))
-                        if s["rv"]["kind"]["adt"] == "std::result::Result" and s["rv"]["kind"]["variant"] == "Ok" and s["place"]["local"] == 0:
+                        if s["rv"]["kind"]["adt"] == "std::result::Result" and s["rv"]["kind"]["variant"] == "Ok" and \
+                                (s["place"]["local"] == 0 or "rule::Rule" in p.local_ty(s["place"]["local"])["s"]):
                             eff.add(("ok",))
             end[names.get(v, str(v))] = eff
     # where do the lines come from
@@ -730,6 +734,50 @@ def c14_r5(ctx):
             ctx.ok()
 
 
+def _each_definition_sorted(ctx, g, arg, fld):
+    """The argument is a variable every definition of which is either the rule's own list chosen
+    under the true edge of a sortedness test of that list, or a vector `sort()` was called on."""
+    vo = g.vars_of_operand(arg)
+    if not vo or not all(v[0][0] == "var" and len(v) == 1 for v in vo):
+        return False
+    for v in vo:
+        defs = [d for d in g.defs.get(v[0][1], ()) if not d[3]["proj"]]
+        if not defs:
+            return False
+        for (kind, bb, idx, place, payload) in defs:
+            if kind != "assign":
+                return False
+            op = None
+            if payload["k"] == "aggregate" and payload["ops"]:
+                op = payload["ops"][0]
+            elif payload["k"] == "use":
+                op = payload["op"]
+            elif payload["k"] == "ref":
+                op = {"k": "copy", "place": payload["place"]}
+            if op is None:
+                return False
+            org = g.origins_of_operand(op)
+            ov = g.vars_of_operand(op)
+            if ov and all(x[0][0] == "var" for x in ov) and \
+                    any(g.vars_of_operand(sc.args[0]) == ov and g.dominated_by_blocks(bb, [sc.bb]) for sc in g.calls_to(SORT)):
+                continue
+            if org and all(o[0][0] == "param" and o[-1] == ("field", fld) for o in org):
+                guards = set()
+                for t in g.calls:
+                    tg = ctx.P.local_targets(t)
+                    if tg and ctx.P.fns[tg[0]].body.get("output", {}).get("s") == "bool" and g.origins_of_operand(t.args[0]) == org \
+                            and _is_sorted_pred(ctx, ctx.P.fns[tg[0]]):
+                        guards |= g.bool_edges_of_call(t, True)
+                if not g.dominated_by_edges(bb, guards):
+                    return False
+                continue
+            ov = g.vars_of_operand(op)
+            if ov and any(g.vars_of_operand(sc.args[0]) == ov and g.dominated_by_blocks(bb, [sc.bb]) for sc in g.calls_to(SORT)):
+                continue
+            return False
+    return True
+
+
 @rule("C13.R3", floor=2)
 def c13_r3(ctx):
     """Order-insensitive for targets/sources, order-sensitive for the command: the serialiser
@@ -766,6 +814,10 @@ def c13_r3(ctx):
                         guards |= g.bool_edges_of_call(t, True)
                     elif verdict is None and g.dominated_by_edges(c.bb, g.bool_edges_of_call(t, True)):
                         raise AnalysisError("idiom not recognised: %s guards the unsorted use of %s but is not written as windows(2).all(|w| w[0] <= w[1]); the rule cannot tell whether it tests sortedness" % (tg[0], fld))
+            if not g.dominated_by_edges(c.bb, guards) and _each_definition_sorted(ctx, g, c.args[i], fld):
+                # (`let targets = if is_sorted(&self.targets) { Cow::Borrowed(..) } else { sorted copy }`:
+                #  judged where each value is chosen, not where the merged variable is used)
+                continue
             if not g.dominated_by_edges(c.bb, guards):
                 ok = False
                 ctx.viol((g.id, "unsorted-into-identity", fld), "%s reach the identity hash neither sorted nor checked to be sorted: re-ordering the lines would change the rule's identity" % fld, c.where)
